@@ -11,7 +11,7 @@ import os
 import re
 
 OUT = "Termination.v"
-EXITS, LOOPS = [], []
+EXITS, LOOPS, FOR_LOOPS = [], [], []
 
 DIAG = re.compile(r"LOG_FMT\(\s*(LERR|LWARN)|fprintf\(\s*stderr|usage_error\(|log_flush|perror|std::cerr|OptionWarning|LOG_FMT\(LSYS")
 POSITIVE = re.compile(r"^(\(?\s*)*\w+->(Is|IsString|IsNewline|IsComment|IsCommentOrNewline|IsPointerOperator|IsParenClose|IsParenOpen|IsBraceOpen|IsBraceClose|"
@@ -77,7 +77,7 @@ def cond_class(cond, body):
 
 def generate(repo):
     src_dir = os.path.join(repo, "src")
-    exits, loops, char_loops = [], [], []
+    exits, loops, char_loops, for_loops = [], [], [], []
     for root, _, files in os.walk(src_dir):
         for fn in sorted(files):
             if not (fn.endswith(".cpp") or fn.endswith(".h")):
@@ -154,6 +154,36 @@ def generate(repo):
                     raise ValueError("%s:%d: chunk-walk loop outside a recognised function" % (rel, s.count("\n", 0, m.start()) + 1))
                 c = re.sub(r"\s+", " ", cond).strip()
                 loops.append({"file": rel, "line": s.count("\n", 0, m.start()) + 1, "func": f, "cond": c, "cls": cond_class(cond, body)})
+            # for-loops that walk the chunk list in their increment:  for (init; cond; v = v->GetNext..())
+            for m in re.finditer(r"\bfor\s*\(", s):
+                e = balanced(s, m.end() - 1, "(", ")")
+                hdr = s[m.end():e]
+                parts, depth, cur = [], 0, ""
+                for ch in hdr:
+                    if ch in "([{":
+                        depth += 1
+                    elif ch in ")]}":
+                        depth -= 1
+                    if ch == ";" and depth == 0:
+                        parts.append(cur)
+                        cur = ""
+                    else:
+                        cur += ch
+                parts.append(cur)
+                if len(parts) != 3 or not re.search(r"\b(\w+)\s*=\s*\1->Get(?:Next|Prev)\w*\(", parts[2]):
+                    continue
+                k = e + 1
+                while k < len(s) and s[k] in " \n\t":
+                    k += 1
+                body = s[k:balanced(s, k, "{", "}") + 1] if k < len(s) and s[k] == "{" else ""
+                f = fn_at(funcs, m.start())
+                if f is None:
+                    raise ValueError("%s:%d: for-loop chunk walk outside a recognised function" % (rel, s.count("\n", 0, m.start()) + 1))
+                cond = parts[1].strip()
+                cls = cond_class(cond, body) if cond else ("Guarded" if re.search(r"(IsNullChunk|IsNotNullChunk)\(\)", body) and re.search(r"\b(break|return)\b", body) else "Open")
+                for_loops.append({"file": rel, "line": s.count("\n", 0, m.start()) + 1, "func": f, "cond": re.sub(r"\s+", " ", cond) or "(none)", "cls": cls})
+    if len(for_loops) < 60:
+        raise ValueError("only %d for-loop chunk walks found" % len(for_loops))
     if len(exits) < 60 or len(loops) < 150:
         raise ValueError("inventory too small: %d exit sites, %d loops" % (len(exits), len(loops)))
     del EXITS[:]
@@ -179,11 +209,17 @@ def generate(repo):
     L.append(";\n".join("  (%s, %s, %s, %d) (* %s:%d *)" % (coq_bytes(x["file"]), coq_bytes(x["func"]), coq_bytes(x["cond"][:200]), code[x["cls"]], x["file"], x["line"])
                         for x in char_loops))
     L.append("].\n")
+    L.append("(* for-loops whose increment walks the chunk list: file, function, condition, class *)")
+    L.append("Definition for_loops : list (list Z * list Z * list Z * Z) := [")
+    L.append(";\n".join("  (%s, %s, %s, %d) (* %s:%d *)" % (coq_bytes(x["file"]), coq_bytes(x["func"]), coq_bytes(x["cond"][:200]), code[x["cls"]], x["file"], x["line"])
+                        for x in for_loops))
+    L.append("].\n")
+    FOR_LOOPS[:] = for_loops
     if len(char_loops) < 30:
         raise ValueError("only %d character loops found in the tokenizer" % len(char_loops))
     from collections import Counter
     info = {"char_loops": len(char_loops), "char_loop_classes": dict(Counter(x["cls"] for x in char_loops)), "exit_sites": len(exits), "statuses": dict(Counter(x["status"] for x in exits)), "undiagnosed": sum(1 for x in exits if not x["diag"]),
-            "loops": len(loops), "loop_classes": dict(Counter(x["cls"] for x in loops))}
+            "for_loops": len(for_loops), "for_loop_classes": dict(Counter(x["cls"] for x in for_loops)), "loops": len(loops), "loop_classes": dict(Counter(x["cls"] for x in loops))}
     return {"file": OUT, "text": "\n".join(L), "info": info}
 
 
@@ -193,6 +229,9 @@ if __name__ == "__main__":
     for x in LOOPS:
         if x["cls"] == "Open":
             print("LOOP", x["file"], x["func"], "|", x["cond"][:100])
+    for x in FOR_LOOPS:
+        if x["cls"] == "Open":
+            print("FOR", x["file"], x["line"], x["func"], "|", x["cond"][:100])
     for x in EXITS:
         if not x["diag"] or x["output_phase"]:
             print("EXIT", x)
